@@ -3,9 +3,10 @@ CONSTANTS
   CheckTrailer = TRUE
   UpdateWatchdog = FALSE
   WaitOrigins = FALSE
+  CallerCtx = TRUE
   Bound = 2
   NOrigs = {0, 1, 2, 3}
   Intfs = {"keep", "none", "direct", "recursive"}
   Gen = FALSE
 INVARIANTS TypeOK InvSuccessSound InvFailureReported InvNoRedundant InvUnpinIdempotent
-  InvStallGivesUpAdd InvOriginsBestEffort InvUpdateOnlyIfRecursive InvSourceKept
+  InvStallGivesUpAdd InvOriginsBestEffort InvCallReturns InvCancelPropagates InvUpdateOnlyIfRecursive InvSourceKept
